@@ -351,4 +351,17 @@ pub fn run(r: &mut Runner) {
             }
         });
     }
+    {
+        let gs = crate::fx::generic_stream(if quick { 30000 } else { 3000000 }, 113, -900, 899);
+        let ngs = gs.len();
+        r.notes.push(format!("generic stream for sqrt/cbrt: {} operands of a fixed Weyl sequence (full-size mantissas in both words, exponents -900..899)", ngs));
+        r.par("generic stream: sqrt/cbrt", ngs.div_ceil(256), ngs as u64, |c, l| {
+            for i in (c * 256)..((c + 1) * 256).min(ngs) {
+                let v = judge_sqrt([gs[i][0].abs(), if gs[i][0] < 0.0 { -gs[i][1] } else { gs[i][1] }], Some(l));
+                rec.record(l, (1u64 << 58) + (i * 2) as u64, v);
+                let v = judge_cbrt(gs[i], Some(l));
+                rec.record(l, (1u64 << 58) + (i * 2 + 1) as u64, v);
+            }
+        });
+    }
 }
